@@ -45,6 +45,8 @@ inductive DiagClass
   -- SBE validator: members
   | unknownFieldType | fieldConstantWithoutValueRef | compositeFieldConstant
   | enumConstantTypeMismatch | blockLengthTooSmall
+  -- SBE validator: what the generated code needs from headers and enums
+  | headerElementNotInteger | headerValueOutOfRange | duplicateEnumValue
   -- C++ validator
   | keywordName | badSchemaName
   -- the runtime reads a `<data>` length at offset 0 and the payload right behind it, so the
@@ -260,6 +262,8 @@ structure LevelView where
   fields : List FieldDef
   groups : List GroupDef
   datas : List DataDef
+  /-- the composite in front of the level on the wire: the message header / the group's dimension -/
+  hdr : String
 
 def gName : GroupDef → String | .mk n _ _ _ _ _ _ _ => n
 def gId : GroupDef → Nat | .mk _ i _ _ _ _ _ _ => i
@@ -268,7 +272,7 @@ def gAttrs : GroupDef → Attrs | .mk _ _ _ _ _ _ _ a => a
 
 mutual
   def groupLevels (p : Path) : GroupDef → List LevelView
-    | .mk n _ _ bl fields groups datas _ => ⟨p ++ [n], bl, fields, groups, datas⟩ :: groupLevelsL (p ++ [n]) groups
+    | .mk n _ dim bl fields groups datas _ => ⟨p ++ [n], bl, fields, groups, datas, dim⟩ :: groupLevelsL (p ++ [n]) groups
   def groupLevelsL (p : Path) : List GroupDef → List LevelView
     | [] => []
     | g :: rest => groupLevels p g ++ groupLevelsL p rest
@@ -276,10 +280,10 @@ end
 
 def msgPath (m : MessageDef) : Path := ["messages", m.name]
 
-def messageLevels (m : MessageDef) : List LevelView :=
-  ⟨msgPath m, m.blockLength, m.fields, m.groups, m.datas⟩ :: groupLevelsL (msgPath m) m.groups
+def messageLevels (hdr : String) (m : MessageDef) : List LevelView :=
+  ⟨msgPath m, m.blockLength, m.fields, m.groups, m.datas, hdr⟩ :: groupLevelsL (msgPath m) m.groups
 
-def allLevels (s : SchemaDef) : List LevelView := s.messages.flatMap messageLevels
+def allLevels (s : SchemaDef) : List LevelView := s.messages.flatMap (messageLevels s.headerType)
 
 /-! ### references -/
 
@@ -572,6 +576,22 @@ def validValueViol (prim : String) (p : Path) (v : ValidValue) : Option Viol :=
   if (if prim == "char" then v.value.utf8ByteSize == 1 else representable prim v.value) then none
   else some (.valueOutOfRange, p ++ [v.name])
 
+/-- an integer literal without its superfluous leading zeros (the last digit always stays);
+    `-0` is `0` -/
+def canonInt (cs : List Char) : List Char :=
+  let neg := cs.head? == some '-'
+  let ds := if neg then cs.drop 1 else cs
+  let body := match ds.dropWhile (· == '0') with
+    | [] => ds.getLast?.toList
+    | r => r
+  let r := (if neg then ['-'] else []) ++ body
+  if r == ['-', '0'] then ['0'] else r
+
+/-- what a valid value stands for: the character of a `char` enum, the number otherwise
+    (`1` and `01` are the same value) -/
+def enumValueKey (prim : String) (v : ValidValue) : String :=
+  if prim == "char" then v.value else String.ofList (canonInt v.value.toList)
+
 /-- a choice of a set over `prim`: its bit exists -/
 def choiceViol (prim : String) (p : Path) (c : Choice) : Option Viol :=
   if c.index < 8 * (primBytes prim).getD 0 then none else some (.choiceIndexOutOfRange, p ++ [c.name])
@@ -588,7 +608,10 @@ def elemViols (types : List Elem) (p : Path) : Elem → List Viol
     (match resolveEncodingType types enc with
      | .error c => [(c, p)]
      | .ok prim =>
-       if !isIntegralPrim prim then [(.enumTypeNotIntegral, p)] else vs.filterMap (validValueViol prim p))
+       if !isIntegralPrim prim then [(.enumTypeNotIntegral, p)]
+       else vs.filterMap (validValueViol prim p) ++
+         -- enumerators become `case` labels: no two of them stand for the same value
+         (repeats (enumValueKey prim) [] vs).map (fun v => (.duplicateEnumValue, p ++ [v.name])))
   | .set _ enc _ cs _ =>
     (match resolveEncodingType types enc with
      | .error c => [(c, p)]
@@ -620,7 +643,8 @@ def headerMemberViols (types : List Elem) (hp : Path) (elems : List Elem) (name 
   | .ok (t, ep) =>
     if varData then (if t.length != 0 then [(.varDataLength, ep)] else [])
     else if t.length != 1 then [(.headerElementArray, ep)]
-    else if t.presence == .constant then [(.headerElementConstant, ep)] else []
+    else if t.presence == .constant then [(.headerElementConstant, ep)]
+    else if !isIntegralPrim t.prim then [(.headerElementNotInteger, ep)] else []
 
 /-- encoded size of a composite with these members -/
 def compositeSize (types : List Elem) (elems : List Elem) : Option Nat :=
@@ -634,6 +658,9 @@ def dataLayoutViols (types : List Elem) (hp : Path) (elems : List Elem) : List V
   | .ok (t, ep), some sz => if some sz == primBytes t.prim then [] else [(.dataHeaderLayout, ep)]
   | _, _ => []
 
+/-- counters the header fillers set when a message / group header has them -/
+def optionalCounters : List String := ["numGroups", "numVarDataFields"]
+
 /-- a level header: `user` is the entity naming it -/
 def headerViols (types : List Elem) (user : Path) (hdr : String) (required : List String) (data : Bool) : List Viol :=
   match findType types hdr with
@@ -641,8 +668,19 @@ def headerViols (types : List Elem) (user : Path) (hdr : String) (required : Lis
   | some (.composite n _ elems _) =>
     required.flatMap (fun r => headerMemberViols types ["types", n] elems r false) ++
     (if data then headerMemberViols types ["types", n] elems "varData" true ++ dataLayoutViols types ["types", n] elems
-     else [])
+     else optionalCounters.flatMap (fun r =>
+       if (elems.find? (fun e => e.name == r)).isSome then headerMemberViols types ["types", n] elems r false else []))
   | some e => [(.headerNotComposite, typePath e)]
+
+/-- the value a header filler writes into member `name` of the header composite `hdr` is
+    representable in that member's type (an absent member is not written) -/
+def headerValueViols (types : List Elem) (hdr name : String) (value : Nat) (loc : Path) : List Viol :=
+  match findType types hdr with
+  | some (.composite n _ elems _) =>
+    (match headerMemberType types ["types", n] elems name with
+     | .ok (t, _) => if representable t.prim (toString value) then [] else [(.headerValueOutOfRange, loc)]
+     | .error _ => [])
+  | _ => []
 
 /-- presence a field actually has (a field of enum type is never optional, a
     set never anything but required, a field of scalar type inherits the type's) -/
@@ -713,6 +751,11 @@ def levelViols (types : List Elem) (l : LevelView) : List Viol :=
   l.fields.flatMap (fieldViols types l.path) ++
   (fieldMinima types 0 l.fields).filterMap (fieldOffsetViol l.path) ++
   blockLengthViols types l.path l.blockLength l.fields ++
+  (match fieldsEnd types 0 l.fields with
+   | some e => headerValueViols types l.hdr "blockLength" (l.blockLength.getD e) l.path
+   | none => []) ++
+  headerValueViols types l.hdr "numGroups" l.groups.length l.path ++
+  headerValueViols types l.hdr "numVarDataFields" l.datas.length l.path ++
   l.groups.flatMap (fun g => headerViols types (l.path ++ [gName g]) (gDim g) ["numInGroup", "blockLength"] false) ++
   l.datas.flatMap (fun d => headerViols types (l.path ++ [d.name]) d.type ["length"] true)
 
@@ -722,6 +765,9 @@ def violations (s : SchemaDef) : List Viol :=
   (allElems s).flatMap (fun (p, e) => elemViols s.types p e) ++
   cycleViols s ++
   headerViols s.types ["schema"] s.headerType ["schemaId", "templateId", "version", "blockLength"] false ++
+  headerValueViols s.types s.headerType "schemaId" s.id ["schema"] ++
+  headerValueViols s.types s.headerType "version" s.version ["schema"] ++
+  s.messages.flatMap (fun m => headerValueViols s.types s.headerType "templateId" m.id (msgPath m)) ++
   (allLevels s).flatMap (levelViols s.types)
 
 /-- **the specification**: no rule is broken anywhere -/
